@@ -1,7 +1,8 @@
 /-
   Helper lemmas for C18, part 4: the duration parser `idiffStrp` on every spelling
-  `[+-]P[nW][nD][T[nH][nM][nS]]` (digit strings with leading zeros allowed, values below 2^32),
-  the explicit form of what `idiffStrf` prints, and the round trip.
+  `[+-]P[nW][nD][T[nH][nM][n[.f]S]]` (digit strings with leading zeros allowed, values below 2^32,
+  the seconds with an optional decimal fraction: milliseconds, further digits read over).
+  What `idiffStrf` prints and the round trip are in Strpf5.lean.
 -/
 import Echse.Lemmas.Strpf3
 namespace Echse.Strpf
@@ -9,15 +10,29 @@ open Echse.Instant Echse.Spec.Cal
 
 /-! ### G. durations -/
 
+/-- the `switch` of the `more_time:` loop -/
+def timeSw (s : List Char) (len f i val step : Nat) (msd : Int) : Nat × Int :=
+  let c := if (chr s i).toNat < 128 then (chr s i).toNat ||| step else 0
+  if c = 72 then idiffTime s len f (i + 1) (step ||| 0x1) (msd + (val : Int) * 3600000)
+  else if c = 77 then idiffTime s len f (i + 1) (step ||| 0x11) (msd + (val : Int) * 60000)
+  else if c = 83 then idiffTime s len f (i + 1) (step ||| 0x21) (msd + (val : Int) * 1000)
+  else (i + 1, msd)
+
 theorem idiffTime_succ (s : List Char) (len f i step : Nat) (msd : Int) :
     idiffTime s len (f+1) i step msd =
       (let r := numLoop s len (len + 1) i 0
-       let c := if (chr s r.1).toNat < 128 then (chr s r.1).toNat ||| step else 0
-       if c = 72 then idiffTime s len f (r.1 + 1) (step ||| 0x1) (msd + (r.2 : Int) * 3600000)
-       else if c = 77 then idiffTime s len f (r.1 + 1) (step ||| 0x11) (msd + (r.2 : Int) * 60000)
-       else if c = 83 then idiffTime s len f (r.1 + 1) (step ||| 0x21) (msd + (r.2 : Int) * 1000)
-       else (r.1 + 1, msd)) := by
+       if r.1 < len ∧ chr s r.1 = '.' then
+         (let q := fracLoop s len (len + 1) (r.1 + 1) 100 0
+          if q.1 ≥ len ∨ chr s q.1 ≠ 'S' then (q.1, msd) else timeSw s len f q.1 r.2 step (msd + (q.2 : Int)))
+       else timeSw s len f r.1 r.2 step msd) := by
   rw [idiffTime]
+  simp only [timeSw]
+  by_cases hdot : (numLoop s len (len + 1) i 0).1 < len ∧ chr s (numLoop s len (len + 1) i 0).1 = '.'
+  · by_cases hS : (fracLoop s len (len + 1) ((numLoop s len (len + 1) i 0).1 + 1) 100 0).1 ≥ len ∨
+        chr s (fracLoop s len (len + 1) ((numLoop s len (len + 1) i 0).1 + 1) 100 0).1 ≠ 'S'
+    · simp only [hdot, hS, and_self, if_true]
+    · simp only [hdot, hS, and_self, if_true, if_false]
+  · simp only [hdot, if_false]
 
 theorem idiffDate_succ (s : List Char) (len f i : Nat) (sw sd : Bool) (dd : Int) :
     idiffDate s len (f+1) i sw sd dd =
@@ -38,7 +53,7 @@ theorem idiffTime_end (s : List Char) (i : Nat) (hi : i = s.length) (f step : Na
     idiffTime s s.length (f+1) i step msd = (i + 1, msd) := by
   subst hi
   rw [idiffTime_succ, numLoop_end]
-  simp [chr_length, h]
+  simp [timeSw, chr_length, h]
 
 theorem idiffDate_end (s : List Char) (i : Nat) (hi : i = s.length) (f : Nat) (sw sd : Bool) (dd : Int) :
     idiffDate s s.length (f+1) i sw sd dd = (i + 1, dd, 0) := by
@@ -56,7 +71,8 @@ theorem tok_facts (s pre ds : List Char) (ch : Char) (rest : List Char) (hs : s 
 
 theorem idiffTime_step (s pre ds : List Char) (ch : Char) (rest : List Char) (hs : s = pre ++ ds ++ ch :: rest)
     (f step : Nat) (msd : Int)
-    (hd : ∀ x ∈ ds, isDig x) (hv : digitsVal ds < 2^32) (hc : ¬ isDig ch) (h128 : ch.toNat < 128) :
+    (hd : ∀ x ∈ ds, isDig x) (hv : digitsVal ds < 2^32) (hc : ¬ isDig ch) (h128 : ch.toNat < 128)
+    (hdot : ch ≠ '.') :
     idiffTime s s.length (f+1) pre.length step msd =
       if ch.toNat ||| step = 72 then
         idiffTime s s.length f (pre.length + ds.length + 1) (step ||| 0x1) (msd + (digitsVal ds : Int) * 3600000)
@@ -67,7 +83,7 @@ theorem idiffTime_step (s pre ds : List Char) (ch : Char) (rest : List Char) (hs
       else (pre.length + ds.length + 1, msd) := by
   obtain ⟨h1, h2⟩ := tok_facts s pre ds ch rest hs hd hv hc
   rw [idiffTime_succ, h1]
-  simp only [h2, h128, if_true]
+  simp only [h2, hdot, and_false, if_false, timeSw, h128, if_true]
 
 theorem idiffDate_step (s pre ds : List Char) (ch : Char) (rest : List Char) (hs : s = pre ++ ds ++ ch :: rest)
     (f : Nat) (sw sd : Bool) (dd : Int)
@@ -86,318 +102,90 @@ theorem idiffDate_step (s pre ds : List Char) (ch : Char) (rest : List Char) (hs
   rw [idiffDate_succ, h1]
   simp only [h2]
 
+/-! ### the decimal fraction of the seconds -/
 
-/-- an optional part: digits and the designator -/
-def part (o : Option (List Char)) (c : Char) : List Char :=
-  match o with | none => [] | some ds => ds ++ [c]
-def pval (o : Option (List Char)) : Int :=
-  match o with | none => 0 | some ds => (digitsVal ds : Int)
-/-- the digits of a part are ASCII digits denoting a value below 2^32 -/
-def POk (o : Option (List Char)) : Prop := ∀ ds, o = some ds → (∀ c ∈ ds, isDig c) ∧ digitsVal ds < 2^32
+/-- digits weighted `mul`, `mul / 10`, … -/
+def fracW : Nat → List Char → Nat
+  | _, [] => 0
+  | mul, d :: ds => (d.toNat - 48) * mul + fracW (mul / 10) ds
 
-theorem timeS (s pre : List Char) (os : Option (List Char)) (hs : s = pre ++ part os 'S')
-    (i : Nat) (hi : i = pre.length) (hok : POk os) (f step : Nat) (msd : Int)
-    (hstep : step = 0 ∨ step = 1 ∨ step = 0x11) :
-    (idiffTime s s.length (f+2) i step msd).2 = msd + pval os * 1000 := by
-  subst hi
-  cases os with
-  | none =>
-    have : s = pre := by simpa [part] using hs
-    subst this
-    rw [idiffTime_end _ _ rfl _ _ _ (by rcases hstep with rfl | rfl | rfl <;> decide)]
-    simp [pval]
-  | some ds =>
-    obtain ⟨hd, hv⟩ := hok ds rfl
-    have hs' : s = pre ++ ds ++ 'S' :: [] := by simpa [part] using hs
-    rw [idiffTime_step s pre ds 'S' [] hs' (f+1) step msd hd hv (by decide) (by decide)]
-    have e : 'S'.toNat ||| step = 83 := by rcases hstep with rfl | rfl | rfl <;> decide
-    rw [e, if_neg (by decide), if_neg (by decide), if_pos rfl]
-    rw [idiffTime_end s _ (by rw [hs']; simp [Nat.add_assoc]) f _ _ (by rcases hstep with rfl | rfl | rfl <;> decide)]
-    simp [pval]
+/-- the milliseconds a fraction `.fs` denotes: three digits count, the rest is read over -/
+def fracVal (fs : List Char) : Nat := fracW 100 fs
 
-theorem timeMS (s pre : List Char) (om os : Option (List Char)) (hs : s = pre ++ part om 'M' ++ part os 'S')
-    (i : Nat) (hi : i = pre.length) (hokm : POk om) (hoks : POk os) (f step : Nat) (msd : Int)
-    (hstep : step = 0 ∨ step = 1) :
-    (idiffTime s s.length (f+3) i step msd).2 = msd + pval om * 60000 + pval os * 1000 := by
-  subst hi
-  cases om with
-  | none =>
-    rw [timeS s pre os (by simpa [part] using hs) _ rfl hoks (f+1) step msd (by omega)]
-    simp [pval]
-  | some ds =>
-    obtain ⟨hd, hv⟩ := hokm ds rfl
-    have hs' : s = pre ++ ds ++ 'M' :: part os 'S' := by simpa [part] using hs
-    rw [idiffTime_step s pre ds 'M' _ hs' (f+2) step msd hd hv (by decide) (by decide)]
-    have e : 'M'.toNat ||| step = 77 := by rcases hstep with rfl | rfl <;> decide
-    rw [e, if_neg (by decide), if_pos rfl]
-    rw [timeS s (pre ++ ds ++ ['M']) os (by rw [hs']; simp) _ (by simp [Nat.add_assoc]) hoks f _ _
-      (by rcases hstep with rfl | rfl <;> decide)]
-    simp [pval]
+theorem fracW_zero : ∀ fs, fracW 0 fs = 0 := by
+  intro fs; induction fs with
+  | nil => rfl
+  | cons d ds ih => simp [fracW, ih]
 
-theorem timeHMS (s pre : List Char) (oh om os : Option (List Char))
-    (hs : s = pre ++ part oh 'H' ++ part om 'M' ++ part os 'S')
-    (i : Nat) (hi : i = pre.length) (hokh : POk oh) (hokm : POk om) (hoks : POk os) (f : Nat) (msd : Int) :
-    (idiffTime s s.length (f+4) i 0 msd).2 = msd + pval oh * 3600000 + pval om * 60000 + pval os * 1000 := by
-  subst hi
-  cases oh with
-  | none =>
-    rw [timeMS s pre om os (by simpa [part] using hs) _ rfl hokm hoks (f+1) 0 msd (by omega)]
-    simp [pval]
-  | some ds =>
-    obtain ⟨hd, hv⟩ := hokh ds rfl
-    have hs' : s = pre ++ ds ++ 'H' :: (part om 'M' ++ part os 'S') := by simpa [part] using hs
-    rw [idiffTime_step s pre ds 'H' _ hs' (f+3) 0 msd hd hv (by decide) (by decide)]
-    rw [if_pos (by decide)]
-    rw [timeMS s (pre ++ ds ++ ['H']) om os (by rw [hs']; simp) _ (by simp [Nat.add_assoc]) hokm hoks f _ _ (by decide)]
-    simp [pval]
+/-- pad with zeros to three digits or cut after the third: the number so written -/
+theorem fracVal_pad (fs : List Char) : fracVal fs = digitsVal ((fs ++ ['0', '0', '0']).take 3) := by
+  unfold fracVal
+  match fs with
+  | [] => decide
+  | [a] => simp [fracW, digitsVal, digStep]; omega
+  | [a, b] => simp [fracW, digitsVal, digStep]; omega
+  | a :: b :: c :: r => simp [fracW, fracW_zero, digitsVal, digStep]; omega
 
-/-- the time section: present iff one of its parts is -/
-def tpart (oh om os : Option (List Char)) : List Char :=
-  if oh.isSome ∨ om.isSome ∨ os.isSome then 'T' :: (part oh 'H' ++ part om 'M' ++ part os 'S') else []
+/-- one to three digits: the number, scaled -/
+theorem fracVal_short (fs : List Char) (h : fs.length ≤ 3) : fracVal fs = digitsVal fs * 10 ^ (3 - fs.length) := by
+  unfold fracVal
+  match fs, h with
+  | [], _ => decide
+  | [a], _ => simp [fracW, digitsVal, digStep]
+  | [a, b], _ => simp [fracW, digitsVal, digStep]; omega
+  | [a, b, c], _ => simp [fracW, digitsVal, digStep]; omega
 
-def msdVal (oh om os : Option (List Char)) : Int := pval oh * 3600000 + pval om * 60000 + pval os * 1000
+/-- more digits do not matter -/
+theorem fracVal_over (a b c : Char) (r : List Char) : fracVal (a :: b :: c :: r) = fracVal [a, b, c] := by
+  simp [fracVal, fracW, fracW_zero]
 
-theorem dateT (s pre : List Char) (oh om os : Option (List Char)) (hs : s = pre ++ tpart oh om os)
-    (i : Nat) (hi : i = pre.length) (hokh : POk oh) (hokm : POk om) (hoks : POk os)
-    (f : Nat) (sw sd : Bool) (dd : Int) :
-    (idiffDate s s.length (f+1) i sw sd dd).2 = (dd, msdVal oh om os) := by
-  subst hi
-  by_cases hany : oh.isSome ∨ om.isSome ∨ os.isSome
-  · have hs' : s = pre ++ [] ++ 'T' :: (part oh 'H' ++ part om 'M' ++ part os 'S') := by
-      simpa [tpart, hany] using hs
-    rw [idiffDate_step s pre [] 'T' _ hs' f sw sd dd (by simp) (by decide) (by decide)]
-    rw [if_pos rfl]
-    simp only [List.length_nil, Nat.add_zero]
-    rw [timeHMS s (pre ++ ['T']) oh om os (by rw [hs']; simp) _ (by simp) hokh hokm hoks 1 0]
-    simp [msdVal]
-  · have hs' : s = pre := by simpa [tpart, hany] using hs
-    subst hs'
-    rw [idiffDate_end _ _ rfl]
-    have : oh = none ∧ om = none ∧ os = none := by
-      cases oh <;> cases om <;> cases os <;> simp at hany ⊢
-    obtain ⟨rfl, rfl, rfl⟩ := this
-    simp [msdVal, pval]
+theorem fracVal_lt (fs : List Char) (hd : ∀ c ∈ fs, isDig c) : fracVal fs < 1000 := by
+  unfold fracVal
+  match fs, hd with
+  | [], _ => decide
+  | [a], hd =>
+    have := (hd a (by simp)).2
+    simp [fracW]; omega
+  | [a, b], hd =>
+    have := (hd a (by simp)).2; have := (hd b (by simp)).2
+    simp [fracW]; omega
+  | a :: b :: c :: r, hd =>
+    have := (hd a (by simp)).2; have := (hd b (by simp)).2; have := (hd c (by simp)).2
+    simp [fracW, fracW_zero]; omega
 
-theorem dateD (s pre : List Char) (od oh om os : Option (List Char))
-    (hs : s = pre ++ part od 'D' ++ tpart oh om os)
-    (i : Nat) (hi : i = pre.length) (hokd : POk od) (hokh : POk oh) (hokm : POk om) (hoks : POk os)
-    (f : Nat) (sw : Bool) (dd : Int) :
-    (idiffDate s s.length (f+2) i sw false dd).2 = (dd + pval od, msdVal oh om os) := by
-  subst hi
-  cases od with
-  | none =>
-    rw [dateT s pre oh om os (by simpa [part] using hs) _ rfl hokh hokm hoks (f+1)]
-    simp [pval]
-  | some ds =>
-    obtain ⟨hd, hv⟩ := hokd ds rfl
-    have hs' : s = pre ++ ds ++ 'D' :: tpart oh om os := by simpa [part] using hs
-    rw [idiffDate_step s pre ds 'D' _ hs' (f+1) sw false dd hd hv (by decide)]
-    rw [if_neg (by decide), if_neg (by decide), if_pos rfl]
-    simp only [Bool.false_eq_true, if_false]
-    rw [dateT s (pre ++ ds ++ ['D']) oh om os (by rw [hs']; simp) _ (by simp [Nat.add_assoc]) hokh hokm hoks f]
-    simp [pval]
-
-theorem dateWD (s pre : List Char) (ow od oh om os : Option (List Char))
-    (hs : s = pre ++ part ow 'W' ++ part od 'D' ++ tpart oh om os)
-    (i : Nat) (hi : i = pre.length) (hokw : POk ow) (hokd : POk od) (hokh : POk oh) (hokm : POk om)
-    (hoks : POk os) (f : Nat) (dd : Int) :
-    (idiffDate s s.length (f+3) i false false dd).2 = (dd + pval ow * 7 + pval od, msdVal oh om os) := by
-  subst hi
-  cases ow with
-  | none =>
-    rw [dateD s pre od oh om os (by simpa [part] using hs) _ rfl hokd hokh hokm hoks (f+1)]
-    simp [pval]
-  | some ds =>
-    obtain ⟨hd, hv⟩ := hokw ds rfl
-    have hs' : s = pre ++ ds ++ 'W' :: (part od 'D' ++ tpart oh om os) := by simpa [part] using hs
-    rw [idiffDate_step s pre ds 'W' _ hs' (f+2) false false dd hd hv (by decide)]
-    rw [if_neg (by decide), if_pos rfl]
-    simp only [Bool.false_eq_true, if_false]
-    rw [dateD s (pre ++ ds ++ ['W']) od oh om os (by rw [hs']; simp) _ (by simp [Nat.add_assoc]) hokd hokh hokm hoks f]
-    simp [pval]
-
-
-/-! ### the whole duration text -/
-
-def durBody (ow od oh om os : Option (List Char)) : List Char :=
-  part ow 'W' ++ part od 'D' ++ tpart oh om os
-
-def durVal (ow od oh om os : Option (List Char)) : Int :=
-  (pval ow * 7 + pval od) * 86400000 + pval oh * 3600000 + pval om * 60000 + pval os * 1000
-
-theorem idiffStrp_P (t : List Char) (len : Nat) (h : 3 ≤ len) :
-    idiffStrp ('P' :: t) len =
-      (let r := idiffDate ('P' :: t) len 4 1 false false 0; (r.2.1 * 86400000 + r.2.2, r.1)) := by
-  unfold idiffStrp
-  rw [if_neg (by omega)]
-  simp [chr_cons_zero]
-
-theorem idiffStrp_plusP (t : List Char) (len : Nat) (h : 3 ≤ len) :
-    idiffStrp ('+' :: 'P' :: t) len =
-      (let r := idiffDate ('+' :: 'P' :: t) len 4 2 false false 0; (r.2.1 * 86400000 + r.2.2, r.1)) := by
-  unfold idiffStrp
-  rw [if_neg (by omega)]
-  simp [chr_cons_zero, chr_cons_succ]
-
-theorem idiffStrp_minusP (t : List Char) (len : Nat) (h : 3 ≤ len) :
-    idiffStrp ('-' :: 'P' :: t) len =
-      (let r := idiffDate ('-' :: 'P' :: t) len 4 2 false false 0; (-(r.2.1 * 86400000 + r.2.2), r.1)) := by
-  unfold idiffStrp
-  rw [if_neg (by omega)]
-  simp [chr_cons_zero, chr_cons_succ]
-
-theorem idiffStrp_dur (sign : List Char) (ow od oh om os : Option (List Char))
-    (hw : POk ow) (hd : POk od) (hh : POk oh) (hm : POk om) (hs : POk os)
-    (hsign : sign = [] ∨ sign = ['+'] ∨ sign = ['-'])
-    (hlen : 3 ≤ (sign ++ 'P' :: durBody ow od oh om os).length) :
-    (idiffStrp (sign ++ 'P' :: durBody ow od oh om os) (sign ++ 'P' :: durBody ow od oh om os).length).1 =
-      if sign = ['-'] then - durVal ow od oh om os else durVal ow od oh om os := by
-  have key := fun pre i hi hs' => dateWD (sign ++ 'P' :: durBody ow od oh om os) pre ow od oh om os hs' i hi
-      hw hd hh hm hs 1 0
-  rcases hsign with rfl | rfl | rfl
-  · have := key ['P'] 1 rfl (by simp [durBody])
-    simp only [List.nil_append] at this hlen ⊢
-    rw [idiffStrp_P _ _ hlen]
-    simp only [this, msdVal, durVal]
-    simp
-    omega
-  · have := key ['+', 'P'] 2 rfl (by simp [durBody])
-    simp only [List.cons_append, List.nil_append] at this hlen ⊢
-    rw [idiffStrp_plusP _ _ hlen]
-    simp only [this, msdVal, durVal]
-    simp
-    omega
-  · have := key ['-', 'P'] 2 rfl (by simp [durBody])
-    simp only [List.cons_append, List.nil_append] at this hlen ⊢
-    rw [idiffStrp_minusP _ _ hlen]
-    simp only [this, msdVal, durVal]
-    simp
-    omega
-
-
-/-! ### F. what `idiffStrf` prints -/
-
-/-- a part is printed iff its value is not zero -/
-def nz (v : Nat) : Option (List Char) := if v ≠ 0 then some (tostr v) else none
-
-theorem ilog10Ceil_pos (v : Nat) : 1 ≤ ilog10Ceil v := by
-  unfold ilog10Ceil
-  have : 4 ≤ max 4 (bitLen 32 v) := Nat.le_max_left _ _
-  simp only []
-  omega
-
-theorem tostr_length_pos (v : Nat) : 1 ≤ (tostr v).length := by
-  unfold tostr; rw [tpstr_length]; exact ilog10Ceil_pos v
-
-theorem POk_nz (v : Nat) (h : v < 2^32) : POk (nz v) := by
-  intro ds hds
-  unfold nz at hds
-  split at hds
-  · cases hds; exact ⟨tostr_isDig v, by rw [tostr_val v h]; exact h⟩
-  · cases hds
-
-theorem pval_nz (v : Nat) (h : v < 2^32) : pval (nz v) = (v : Int) := by
-  unfold nz
-  split
-  · simp [pval, tostr_val v h]
-  · rename_i h0; simp at h0; simp [pval, h0]
-
-theorem pval_none : pval none = 0 := rfl
-theorem POk_none : POk none := by intro ds h; cases h
-
-theorem idiffStrf_body (n : Nat) (hn : n ≠ 0) (h1000 : n % 1000 = 0) (hd : n / 86400000 < 2^32) :
-    idiffStrf (n : Int) = 'P' :: durBody none (nz (n / 86400000)) (nz (n % 86400000 / 3600000))
-        (nz (n % 86400000 % 3600000 / 60000)) (nz (n % 86400000 % 3600000 % 60000 / 1000)) ∧
-    idiffStrf (-(n : Int)) = '-' :: 'P' :: durBody none (nz (n / 86400000)) (nz (n % 86400000 / 3600000))
-        (nz (n % 86400000 % 3600000 / 60000)) (nz (n % 86400000 % 3600000 % 60000 / 1000)) := by
-  have e1 : ¬ ((n : Int) < 0) := by omega
-  have e2 : (-(n : Int) < 0) := by omega
-  have e3 : (n : Int).natAbs = n := by omega
-  have e4 : (-(n : Int)).natAbs = n := by omega
-  have e5 : n / 86400000 % 2^32 = n / 86400000 := Nat.mod_eq_of_lt hd
-  unfold idiffStrf
-  simp only [e1, e2, e3, e4, e5, hn, if_true, if_false]
-  have k1 : n % 86400000 = 0 → n % 86400000 / 3600000 = 0 ∧ n % 86400000 % 3600000 / 60000 = 0 ∧
-      n % 86400000 % 3600000 % 60000 / 1000 = 0 := by omega
-  have k2 : n % 86400000 ≠ 0 → n % 86400000 / 3600000 ≠ 0 ∨ n % 86400000 % 3600000 / 60000 ≠ 0 ∨
-      n % 86400000 % 3600000 % 60000 / 1000 ≠ 0 := by omega
-  generalize n % 86400000 % 3600000 % 60000 / 1000 = sec at *
-  generalize n % 86400000 % 3600000 / 60000 = mi at *
-  generalize n % 86400000 / 3600000 = h at *
-  generalize n % 86400000 = r at *
-  generalize n / 86400000 = D at *
-  by_cases hr : r = 0
-  · obtain ⟨rfl, rfl, rfl⟩ := k1 hr
-    by_cases a : D = 0 <;> simp [durBody, tpart, part, nz, a, hr]
-  · have k := k2 hr
-    by_cases a : D = 0 <;> by_cases b : h = 0 <;> by_cases c : mi = 0 <;> by_cases d : sec = 0 <;>
-      (try omega) <;> simp [durBody, tpart, part, nz, a, b, c, d, hr]
-
-theorem durBody_nz_length (D h mi sec : Nat) (hnz : D ≠ 0 ∨ h ≠ 0 ∨ mi ≠ 0 ∨ sec ≠ 0) :
-    2 ≤ (durBody none (nz D) (nz h) (nz mi) (nz sec)).length := by
-  have l1 := tostr_length_pos D
-  have l2 := tostr_length_pos h
-  have l3 := tostr_length_pos mi
-  have l4 := tostr_length_pos sec
-  by_cases a : D = 0 <;> by_cases b : h = 0 <;> by_cases c : mi = 0 <;> by_cases d : sec = 0 <;>
-    (try omega) <;> simp [durBody, tpart, part, nz, a, b, c, d] <;> omega
-
-/-- the duration round trip, positive and negative -/
-theorem idiff_roundtrip (n : Nat) (h1000 : n % 1000 = 0) (hd : n / 86400000 < 2^32) :
-    (idiffStrp (idiffStrf (n : Int)) (idiffStrf (n : Int)).length).1 = (n : Int) ∧
-    (idiffStrp (idiffStrf (-(n : Int))) (idiffStrf (-(n : Int))).length).1 = -(n : Int) := by
-  by_cases hn : n = 0
-  · subst hn; decide
-  · obtain ⟨f1, f2⟩ := idiffStrf_body n hn h1000 hd
-    rw [f1, f2]
-    have hl := durBody_nz_length (n / 86400000) (n % 86400000 / 3600000) (n % 86400000 % 3600000 / 60000)
-      (n % 86400000 % 3600000 % 60000 / 1000) (by omega)
-    have b1 : n % 86400000 / 3600000 < 2^32 := by omega
-    have b2 : n % 86400000 % 3600000 / 60000 < 2^32 := by omega
-    have b3 : n % 86400000 % 3600000 % 60000 / 1000 < 2^32 := by omega
-    have p := idiffStrp_dur [] none _ _ _ _ POk_none (POk_nz _ hd) (POk_nz _ b1) (POk_nz _ b2) (POk_nz _ b3)
-      (Or.inl rfl) (by simp only [List.nil_append, List.length_cons]; omega)
-    have q := idiffStrp_dur ['-'] none _ _ _ _ POk_none (POk_nz _ hd) (POk_nz _ b1) (POk_nz _ b2) (POk_nz _ b3)
-      (Or.inr (Or.inr rfl)) (by simp only [List.cons_append, List.nil_append, List.length_cons]; omega)
-    simp only [List.nil_append, List.cons_append, if_true, durVal, pval_nz _ hd, pval_nz _ b1, pval_nz _ b2,
-      pval_nz _ b3, pval_none] at p q
-    rw [if_neg (by decide)] at p
-    rw [p, q]
-    constructor <;> omega
-
-/-! ### parts given as numbers, printed canonically -/
-
-theorem POk_map_tostr (o : Option Nat) (h : ∀ v, o = some v → v < 2^32) : POk (o.map tostr) := by
-  intro ds hds
-  cases o with
-  | none => cases hds
-  | some v =>
-    simp only [Option.map_some, Option.some.injEq] at hds
-    subst hds
-    have hv := h v rfl
-    exact ⟨tostr_isDig v, by rw [tostr_val v hv]; exact hv⟩
-
-theorem pval_map_tostr (o : Option Nat) (h : ∀ v, o = some v → v < 2^32) :
-    pval (o.map tostr) = ((o.getD 0 : Nat) : Int) := by
-  cases o with
-  | none => rfl
-  | some v => simp [pval, tostr_val v (h v rfl)]
-
-theorem part_map_length (o : Option Nat) (c : Char) :
-    (o = none ∧ part (o.map tostr) c = []) ∨ (o ≠ none ∧ 2 ≤ (part (o.map tostr) c).length) := by
-  cases o with
-  | none => left; exact ⟨rfl, rfl⟩
-  | some v => right; have := tostr_length_pos v; simp [part]; omega
-
-theorem tpart_length_ge (oh om os : Option (List Char)) :
-    (part oh 'H').length + (part om 'M').length + (part os 'S').length ≤ (tpart oh om os).length := by
-  unfold tpart
-  split
-  · simp; omega
-  · rename_i h
-    have : oh = none ∧ om = none ∧ os = none := by
-      cases oh <;> cases om <;> cases os <;> simp at h ⊢
-    obtain ⟨rfl, rfl, rfl⟩ := this
-    simp [part]
+theorem fracLoop_digits : ∀ (ds pre rest : List Char) (mul frac fuel len : Nat),
+    (∀ c ∈ ds, isDig c) → ds.length < fuel →
+    pre.length + ds.length ≤ len → (len ≤ pre.length + ds.length ∨ ¬ isDig (chr rest 0)) →
+    fracLoop (pre ++ ds ++ rest) len fuel pre.length mul frac = (pre.length + ds.length, frac + fracW mul ds) := by
+  intro ds
+  induction ds with
+  | nil =>
+    intro pre rest mul frac fuel len _ hf hlen hstop
+    obtain ⟨f, rfl⟩ : ∃ f, fuel = f + 1 := ⟨fuel - 1, by simp at hf; omega⟩
+    simp only [List.append_nil, List.length_nil, Nat.add_zero, fracW] at *
+    unfold fracLoop
+    rw [chr_append_right0, if_neg]
+    rintro ⟨c1, c2, c3⟩
+    rcases hstop with h | h
+    · omega
+    · exact h (xor48_nondig _ c2 c3)
+  | cons d ds ih =>
+    intro pre rest mul frac fuel len hd hf hlen hstop
+    obtain ⟨f, rfl⟩ : ∃ f, fuel = f + 1 := ⟨fuel - 1, by simp at hf; omega⟩
+    simp only [List.length_cons] at *
+    have hdd : isDig d := hd d (by simp)
+    have hx : d.toNat ^^^ 48 = d.toNat - 48 := xor48_dig _ hdd.1 hdd.2
+    unfold fracLoop
+    have hc : chr (pre ++ d :: ds ++ rest) pre.length = d := by
+      rw [List.append_assoc, chr_append_right0]; rfl
+    rw [hc, if_pos ⟨by omega, by have := hdd.2; omega, by rw [hx]; have := hdd.2; omega⟩, hx]
+    have := ih (pre ++ [d]) rest (mul / 10) (frac + (d.toNat - 48) * mul) f len
+      (fun c hc => hd c (by simp [hc])) (by omega)
+      (by simp; omega) (by simpa [Nat.add_assoc, Nat.add_comm 1] using hstop)
+    simp only [List.length_append, List.length_cons, List.length_nil, List.append_assoc, List.cons_append,
+      List.nil_append, Nat.zero_add] at this
+    rw [List.append_assoc, List.cons_append, this]
+    simp only [fracW]
+    congr 1 <;> omega
 
 end Echse.Strpf
